@@ -415,6 +415,18 @@ func (sr *sentRun) clientSettled() bool {
 	return true
 }
 
+// nextDiscoveryStep is the first step after `after` at which a node or sentinel received a SENTINEL or ROLE command.
+func nextDiscoveryStep(log []*fakeredis.Exec, after int) int {
+	for _, ex := range log {
+		if ex.Conn >= 0 && ex.Step > after && len(ex.Argv) > 0 {
+			if n := strings.ToUpper(ex.Argv[0]); n == "SENTINEL" || n == "ROLE" {
+				return ex.Step
+			}
+		}
+	}
+	return -1
+}
+
 func isTaskName(id string) bool {
 	if len(id) < 2 || id[0] != 't' {
 		return false
@@ -1240,8 +1252,16 @@ func (sr *sentRun) judge() {
 			// The answer may have arrived while this call was already under way (it had picked its connection), or while
 			// the client was still closing the connection: only a call that started after the client had finished
 			// everything the answer made it do is judged.
-			if q := sr.settledAfter(last.delivered); q >= 0 && q < cr.rec.StartStep {
-				out.violate("C23", "traffic-after-wrong-role", "%s (call started at step %d, written at step %d) on the %s path: the most recent ROLE answer on that connection was %q, received at step %d; the client had nothing left to do from step %d on", where, cr.rec.StartStep, ws, map[bool]string{false: "primary", true: "replica"}[wantReplica], last.role, last.delivered, q)
+			// Two witnesses that the client has finished with the answer: (1) nothing internal left to do at some step
+			// after it; (2) the discovery flow has moved on - the verification of a target, including the closing of a
+			// connection that answered the wrong role, is synchronous in the goroutine that asked ROLE, so once the client
+			// sends its next SENTINEL or ROLE command (to anyone) that verification has returned.
+			q := sr.settledAfter(last.delivered)
+			if q2 := nextDiscoveryStep(e.sim.W.Log, last.delivered); q2 >= 0 && (q < 0 || q2 < q) {
+				q = q2
+			}
+			if q >= 0 && q < cr.rec.StartStep {
+				out.violate("C23", "traffic-after-wrong-role", "%s (call started at step %d, written at step %d) on the %s path: the most recent ROLE answer on that connection was %q, received at step %d; the client had finished with that answer by step %d", where, cr.rec.StartStep, ws, map[bool]string{false: "primary", true: "replica"}[wantReplica], last.role, last.delivered, q)
 				knownReplica = last.role == "slave"
 			} else {
 				out.notJudged("C23:wrong-role-answer-raced-with-the-call")
